@@ -676,6 +676,60 @@ func GlobalStateRule(w *World, r *Result, rule string) int {
 			}
 		}
 	}
+	// closures with state of their own, created while the package is initialised: whatever they
+	// are stored into (a package-level default value that is copied for every converter) shares
+	// that state between all uses in the process
+	for _, role := range libRoles {
+		initFn := w.SSA[role].Func("init")
+		if initFn == nil {
+			continue
+		}
+		reach := map[*ssa.Function]bool{}
+		var walk func(f *ssa.Function, d int)
+		walk = func(f *ssa.Function, d int) {
+			if f == nil || reach[f] || d > 4 || f.Blocks == nil {
+				return
+			}
+			reach[f] = true
+			for _, b := range f.Blocks {
+				for _, ins := range b.Instrs {
+					if c, ok := ins.(ssa.CallInstruction); ok {
+						if callee := c.Common().StaticCallee(); callee != nil && callee.Pkg == initFn.Pkg {
+							walk(callee, d+1)
+						}
+					}
+				}
+			}
+		}
+		walk(initFn, 0)
+		for f := range reach {
+			for _, b := range f.Blocks {
+				for _, ins := range b.Instrs {
+					mc, ok := ins.(*ssa.MakeClosure)
+					if !ok {
+						continue
+					}
+					anon, ok := mc.Fn.(*ssa.Function)
+					if !ok {
+						continue
+					}
+					writes := ""
+					for _, ab := range anon.Blocks {
+						for _, ai := range ab.Instrs {
+							if st, ok := ai.(*ssa.Store); ok {
+								if fv, ok := st.Addr.(*ssa.FreeVar); ok {
+									writes = fv.Name()
+								}
+							}
+						}
+					}
+					if writes != "" {
+						r.Bad(rule, "state:closure:"+role+"."+FuncName(f), w.Pos(mc.Pos()), fmt.Sprintf("a closure that updates its captured variable %s is created during package initialisation (in %s): every value it is copied into shares that counter, so one transpilation continues the numbering of the previous one", writes, FuncName(f)))
+					}
+				}
+			}
+		}
+	}
 	return nglob
 }
 
